@@ -15,8 +15,13 @@ with different ones and must answer with the rank's afterwards; fibers that alre
 given to a second tensor (or copied without their owner), after which the donor's fibers must still answer
 with the donor's ranks' attributes.  Nests of lists given to fromUncompressed may be ragged (lists under
 different parents of different lengths); the expected shape is the per-rank longest list of the raw nest.
+Tensors may also receive their content after construction (built empty - also dumped to YAML and loaded back while
+empty - or from a fibertree, then filled / grown point by point through getPayloadRef): the tensors transforms make
+from them are judged like any other.  The fibers of one level of a free fibertree may each declare their own extent.
 """
 import itertools
+import os
+import tempfile
 
 from fibertree import Fiber, Payload, Tensor
 
@@ -29,20 +34,26 @@ SPEC = {
              "explicit (different extent per rank) or estimated shape (fromUncompressed also on ragged nests of "
              "depth >= 3 - lists under one parent equally long, lists under different parents not - with and "
              "without shape=: the calculated shape is the per-rank longest list), leaf default 0 or non-zero, a per-rank C/U "
-             "format assignment and a mutability hint, followed by a chain of 1-3 transforms (four split kinds x "
-             "depth/rankid x relative/halo, swizzle permutations incl. 3-cycles, swap at every depth, flatten/merge "
-             "in five coordinate styles x depth x levels incl. flatten of an already flattened rank, unflatten), "
+             "format assignment and a mutability hint - or built EMPTY by Tensor(rank_ids[, shape]), optionally dumped to "
+             "YAML and loaded back while empty, and then filled point by point through getPayloadRef in arbitrary "
+             "order (the way a kernel fills its output), or built by fromFiber and then grown the same way, where the "
+             "shape is estimated also beyond the extent recorded so far -, followed by a chain of 1-3 transforms (four "
+             "split kinds x depth/rankid x relative/halo, swizzle permutations incl. 3-cycles, swap at every depth, "
+             "flatten/merge in five coordinate styles x depth x levels incl. flatten of an already flattened rank, "
+             "mergeRanks with absolute coordinates over any run of integer ranks incl. the run from above the two halves "
+             "of a split down to the lower half, unflatten), "
              "every intermediate result compared with the attribute algebra and walked for coordinate containment; "
              "(lazy) two or more fibers with different declared shapes / active ranges / rank ids (free, tensor "
              "root, interior fiber, split partition) under & | ^ - intersection union prune << project and the six "
-             "dense co-iterators; (join) a free fibertree with its own per-level shapes, default and rank id "
+             "dense co-iterators; (join) a free fibertree with its own shapes (one per level, or one per FIBER: the "
+             "fibers of a level were built separately and declare different extents, in any order), default and rank id "
              "joined to a tensor with different ones, then the tensor's attributes changed; (rejoin) a fiber that "
              "already belongs to a 2-4 rank tensor (its root or an interior fiber) given to a second tensor by "
              "Tensor.fromFiber / setRoot or copied with copy(preserve_owner=False), after which every fiber of the "
              "donor must still answer with the donor's ranks' attributes and every fiber of the new tensor with the new "
              "ranks', also after one tensor's default / rank ids / shape / formats are changed; (fiber) free fibers "
-             "from Fiber.fromUncompressed (rectangular and ragged nests) / fromRandom and their splits / flattenings "
-             "walked for containment. "
+             "from Fiber.fromUncompressed (rectangular and ragged nests) / fromRandom and their splits / flattenings / "
+             "split-then-absolute-merge walked for containment. "
              "Non-trivial = xform: the tensor stores >= 2 leaves and at least one step returned and was judged; "
              "lazy: the first operand "
              "is non-empty and the operands' active ranges differ; join: the fiber is non-empty and at least one "
@@ -53,10 +64,17 @@ SPEC = {
                              "joined_fibers": 500, "fibers_walked": 8000, "iter_active_compared": 8000,
                              "shape_authoritative_checked": 800, "format_checked": 2000,
                              "ragged_nests_shape_calculated": 30, "ragged_nests_free_fiber": 4,
-                             "rejoined_fibers": 3000, "rejoin_three_or_more_levels": 100},
+                             "rejoined_fibers": 3000, "rejoin_three_or_more_levels": 100,
+                             "tensors_filled_after_construction": 200, "points_inserted": 600,
+                             "filled_from_empty": 50, "filled_from_empty_after_yaml": 50,
+                             "grown_beyond_recorded_estimate": 25, "join_sibling_shapes_differ": 40,
+                             "merge_absolute_from_above_split_halves": 100, "fiber_split_merge_absolute": 10},
                    "thorough": {"evaluations": 30000, "oracle_evals": 800000, "xform_steps": 30000,
                                 "lazy_results": 60000, "ragged_nests_shape_calculated": 600,
-                                "rejoined_fibers": 60000, "rejoin_three_or_more_levels": 2000}},
+                                "rejoined_fibers": 60000, "rejoin_three_or_more_levels": 2000,
+                                "tensors_filled_after_construction": 4000, "filled_from_empty_after_yaml": 1000,
+                                "grown_beyond_recorded_estimate": 500, "join_sibling_shapes_differ": 800,
+                                "merge_absolute_from_above_split_halves": 300}},
     "assumptions": [
         "shape equality is required only when the operand's shape was authoritative (handed to the constructor, "
         "or derived by the algebra from such a shape); estimated shapes: only coordinate containment is judged",
@@ -67,9 +85,29 @@ SPEC = {
         "partition's active range as the partition interval clipped to the parent's (absolute) range, so "
         "relative coordinates cannot lie in it; once such a split is in a chain the active-range clause is "
         "skipped for the rest of the chain (containment in the shape is still judged)",
-        "`absolute` / `relative` flattening is generated only for the documented use, the two ranks produced by "
+        "`absolute` / `relative` FLATTENING is generated only for the documented use, the two ranks produced by "
         "a split (absolute / relative coordinates respectively) without halos; `linear` only with an "
-        "authoritative shape (the API requires the lower extent)",
+        "authoritative shape (the API requires the lower extent); mergeRanks with `absolute` coordinates ('the "
+        "coordinate of the lowest rank', points that differ only above it are merged) over any run of integer "
+        "ranks with string ids - the merged coordinate is the lowest rank's own coordinate, so it must lie in that "
+        "rank's shape and in the merged fiber's active range; such a result (payloads added up, possibly to the "
+        "default) is judged but not transformed further.  When the run does not end at the leaf rank the merged "
+        "points hold sub-fibers that are united, and a union has its first operand's active range (this property's "
+        "own rule for lazy merges): such runs are generated only above ranks whose fibers all share one range "
+        "(no split halves below, a recorded extent)",
+        "a tensor that is filled or grown through getPayloadRef after its construction is itself NOT judged (like a "
+        "populate destination: the clause speaks of freshly built or transformed fibers, and an estimated extent "
+        "recorded when the fibers joined is not refreshed by an insertion); every tensor a transform makes from it "
+        "is.  Its shape is authoritative only when one was given to the constructor (insertions then stay inside "
+        "it); a YAML file carries no leaf default, so the round trip is made with default 0",
+        "three guards, now all switched off (D1, D2 repaired in the repository, D3 a recorded known finding; see the header of "
+        "the guards), described the inputs: D1 for an empty shape-less tensor loaded back from YAML (ranks "
+        "record the extent 0 = unknown) containment in the shape is judged against the shape each fiber reports, "
+        "not Tensor.getShape() (which answers [0, ...]); D2 no insertion beyond a recorded estimate in a rank whose "
+        "recorded extent the first transform reuses (U-format ranks, the split rank, ranks outside the pair of a swap "
+        "below the root, flattened / merged ranks and - for a merge - those below, all ranks for a swizzle to the "
+        "present order), and only that one transform is then judged; D3 the fibers of one level all declare a shape "
+        "or none does",
         "swizzle, split and swap are applied to ranks with string ids and integer coordinates (documented "
         "argument types); unflatten to ranks flattened in `tuple` style (documented restriction); swizzle (which "
         "re-derives every fiber's active range from the ranges that contained its coordinates) is not applied "
@@ -94,6 +132,23 @@ SPEC = {
     ],
 }
 
+# Decided (all three guards are off): each of these inputs made the library, as it was when round 6 ran,
+# break the statement; D1 and D2 were repaired in the repository, D3 is a known finding; each surfaces under its own
+# key (tag in brackets) should it return.
+#  D1 [shape-recorded-as-0]: an empty tensor made without a shape and round-tripped through YAML records the
+#     "unknown" marker 0 as its (authoritative) shape; once filled, Tensor.getShape() - and that of every
+#     transform of it - answers [0, ...] although coordinates are stored.  Guard: for such tensors containment is
+#     judged against the shape each FIBER reports (Fiber.getShape estimates when the recorded extent is 0).
+#  D2 [operand-grown-beyond-estimate]: an insertion beyond a recorded ESTIMATED extent leaves the estimate stale;
+#     swapRanks keeps the stale extent of the ranks above the swap, flatten / merge derive the merged rank's active
+#     range from the stale ones.  Guard: no insertion beyond the recorded estimate in such a rank.
+#  D3 [some-fibers-undeclared]: the first fiber of a level that declares a shape makes the rank's shape
+#     authoritative; a later sibling WITHOUT a declared shape is no longer taken into account.  Guard: the fibers
+#     of one level all declare a shape or none does.
+_GUARD_SHAPE0 = False            # D1 repaired in the repository (15c87b2)
+_GUARD_STALE_ESTIMATE = False    # D2 repaired in the repository (8b0c9cb)
+_GUARD_SOME_UNDECLARED = False   # D3 is a recorded known finding (known_findings.json)
+
 SPLITS = ["splitUniform", "splitNonUniform", "splitEqual", "splitUnEqual"]
 LAZY_OPS = ["&", "|", "^", "-", "intersection", "leader-follower", "union", "prune", "<<", "<<lazy", "project",
             "coiterShape", "coiterShapeRef", "coiterActiveShape", "coiterActiveShapeRef", "coiterRangeShape",
@@ -109,13 +164,15 @@ def tup(x):
     return x
 
 
-def st_new(ids, shape, default, fmts, mutable):
-    """kinds[i]: ('int',1) plain rank; ('tuple',n) / ('pair',n) flattened from n original ranks;
+def st_new(ids, shape, default, fmts, mutable, unknown0=False, norecord=False):
+    """unknown0: the ranks record the extent 0, the library's marker for "not known" (see _run_xform); norecord:
+    the ranks record no extent at all (None or that marker), so every fiber's active range is its own estimate.
+    kinds[i]: ('int',1) plain rank; ('tuple',n) / ('pair',n) flattened from n original ranks;
     ('merged',n) linear/absolute/relative.  origin[i]: None or (X, '1'|'0', relative?) for split halves."""
     n = len(ids)
     return {"ids": list(ids), "shape": [tup(s) for s in shape] if shape is not None else None, "default": default,
             "fmts": list(fmts), "mutable": mutable, "kinds": [("int", 1)] * n, "origin": [None] * n,
-            "active_ok": True, "canonical": True}
+            "active_ok": True, "canonical": True, "unknown0": unknown0, "norecord": norecord}
 
 
 def st_copy(st):
@@ -168,9 +225,21 @@ def _flat(x):
     return tuple(x) if isinstance(x, (list, tuple)) else (x,)
 
 
+def _split_pair(st, i):
+    """ranks i, i+1 are the X.1 / X.0 halves of one halo-free split -> relative? (else None)"""
+    o1, o0 = st["origin"][i], st["origin"][i + 1]
+    if o1 and o0 and o1[0] == o0[0] and o1[2] == "1" and o0[2] == "0" and o1[1] == o0[1]:
+        return o1[1]
+    return None
+
+
 def alg_flatten(st, depth, levels, style):
     st = st_copy(st)
     hi = depth + levels + 1
+    if style == "absolute" and not (levels == 1 and _split_pair(st, depth) is False):
+        # the coordinate of the lowest rank alone: points that differ only above it are merged (payloads added,
+        # possibly to the default)
+        st["canonical"] = False
     ids = []
     for r in st["ids"][depth:hi]:
         ids += list(r) if isinstance(r, list) else [r]
@@ -291,13 +360,22 @@ def _legal_steps(rng, st, first):
             styles.append("pair")
         if all(k == ("int", 1) for k in ks) and st["shape"] is not None:
             styles.append("linear")
-        if levels == 1:
-            o1, o0 = st["origin"][i], st["origin"][i + 1]
-            if o1 and o0 and o1[0] == o0[0] and o1[2] == "1" and o0[2] == "0" and o1[1] == o0[1]:
-                styles += ["relative"] * 3 if o1[1] else ["absolute"] * 3
+        if levels == 1 and _split_pair(st, i) is not None:
+            styles += ["relative"] * 3 if _split_pair(st, i) else ["absolute"] * 3
         if styles:
             op = "mergeRanks" if rng.random() < 0.25 else "flattenRanks"
             out.append([op, {"depth": i, "levels": levels, "style": rng.choice(styles)}])
+        # mergeRanks(coord_style='absolute') keeps "the coordinate of the lowest rank" whatever lies above it
+        # (points that differ only above are merged), so it applies to any run of integer ranks - among them the
+        # run that starts above the two halves of a split, whose lowest fibers have different active ranges
+        # (merged points that hold sub-fibers are united, and a union has the first operand's active range: below
+        # the run only ranks whose fibers share one range - no split halves, whose data-dependent partitions may
+        # share a coordinate but not a range, and a recorded extent)
+        run = list(range(i, i + levels + 1))
+        if st["active_ok"] and all(r in plain for r in run) and not (levels == 1 and _split_pair(st, i) is not None) \
+                and (i + levels == n - 1 or (all(o is None for o in st["origin"][i + levels + 1:])
+                                             and not st["norecord"])):
+            out.append(["mergeRanks", {"depth": i, "levels": levels, "style": "absolute"}])
     for i in range(n):
         if st["kinds"][i][0] == "tuple" and st["active_ok"]:
             out.append(["unflattenRanks", {"depth": i, "levels": rng.randint(1, st["kinds"][i][1] - 1)}])
@@ -389,6 +467,81 @@ def _xform_case(rng, cfg, steps=None, nsteps=None):
     return {"kind": "xform", "tensor": cfg, "steps": out}
 
 
+def _stale_sensitive(op, p, st):
+    """Ranks of the operand (algebra state st) whose RECORDED extent the transform works from or carries into its
+    result without looking at the data (D2): a U-format rank (traversed densely up to the recorded extent), the rank
+    that is split (its partitions and halos are cut out of the recorded range), every rank outside the pair
+    exchanged by a swap below the root, the ranks that are flattened / merged (the merged active range is put
+    together from the recorded ones) and, for a merge, the ranks below them."""
+    n = len(st["ids"])
+    out = {i for i in range(n) if st["fmts"][i] == "U"}
+    if op in SPLITS:
+        out.add(_split_depth(st, p))
+    elif op == "swapRanks" and p["depth"] > 0:
+        out |= set(range(n)) - {p["depth"], p["depth"] + 1}
+    elif op == "flattenRanks":
+        out |= set(range(p["depth"], p["depth"] + p["levels"] + 1))
+    elif op == "mergeRanks":        # ... and the sub-fibers united below them take the first one's recorded range
+        out |= set(range(p["depth"], n))
+    elif op == "swizzleRanks" and p["ids"] == st["ids"]:
+        out |= set(range(n))        # the requested order is the present one: a plain copy
+    return out
+
+
+def _grown_case(rng):
+    """A tensor whose content arrives after construction, the way a kernel fills its output: built empty by
+    Tensor(rank_ids[, shape]) - possibly dumped to YAML and loaded back while still empty - or from a fibertree,
+    then points inserted through getPayloadRef (where the shape is estimated also beyond the extent recorded so
+    far), then transformed."""
+    route = rng.choice(["empty", "empty", "empty-yaml", "empty-yaml", "fromFiber", "fromFiber", "fromFiber"])
+    depth = rng.choice([2, 3, 3, 4])
+    ext = rng.sample([2, 3, 4, 5, 6], depth)
+    ids = gen.rank_ids_for(depth, rng.choice(["MKNP", "ABCD", "QRST"]))
+    default = 0 if route == "empty-yaml" else rng.choice([0, 0, 7, -3])   # a YAML file carries no leaf default
+    vals = [v for v in gen.VALUES if v != default]
+    explicit = rng.random() < 0.3
+    shape = [e + rng.choice([0, 1, 3]) for e in ext] if explicit else None
+    cfg = {"ctor": "fromFiber" if route == "fromFiber" else "populated", "ids": ids, "default": default,
+           "fmts": [rng.choice("CCU") for _ in ids], "mutable": rng.random() < 0.5, "shape": shape}
+    spec = []
+    if route == "fromFiber":
+        spec = gen.rand_tree_spec(rng, ext, 0.75, 0.0, default, vals)
+        if not spec:
+            route, cfg["ctor"] = "empty", "populated"
+    if route == "fromFiber":
+        cfg["spec"] = spec
+    else:
+        cfg["yaml"] = route == "empty-yaml"
+    st = st_new(ids, shape, default, cfg["fmts"], cfg["mutable"], norecord=route != "fromFiber" and not explicit)
+    steps = []
+    for k in range(rng.choice([1, 1, 2])):
+        cands = _legal_steps(rng, st, first=(k == 0))
+        if not cands:
+            break
+        steps.append(rng.choice(cands))
+        st = alg_apply(st, steps[-1][0], steps[-1][1])
+    have = gen.content_of_spec(spec, default)
+    tops = [max((pt[r] for pt in have), default=-1) + 1 for r in range(depth)]
+    recorded = route == "fromFiber" and not explicit       # the ranks recorded an estimate when the fibers joined
+    # guard (off) for former defect D2, see _GUARD_STALE_ESTIMATE: ranks in which no
+    # insertion goes beyond the recorded estimate
+    st0 = st_new(ids, shape, default, cfg["fmts"], cfg["mutable"])
+    frozen =_stale_sensitive(steps[0][0], steps[0][1], st0) if (steps and recorded and _GUARD_STALE_ESTIMATE) else set()
+    pts = {}
+    for _ in range(rng.randint(1, 4) if spec else rng.randint(2, 8)):
+        pt = tuple(rng.randrange(shape[r] if explicit else (tops[r] if r in frozen else ext[r] + 3))
+                   for r in range(depth))
+        if pt not in have:
+            pts[pt] = rng.choice(vals)
+    cfg["grow"] = [[list(pt), v] for pt, v in pts.items()]       # in insertion order (not sorted)
+    cfg["beyond"] = [r for r in range(depth) if recorded and any(pt[r] >= tops[r] for pt in pts)]
+    if cfg["beyond"] and _GUARD_STALE_ESTIMATE:
+        # (D2, continued) the result of the first step mixes fibers whose range was copied from a stale one with
+        # fibers that follow the re-estimated extent; a later step that unites such fibers is not judged
+        steps = steps[:1]
+    return {"kind": "xform", "tensor": cfg, "steps": steps}
+
+
 def _sys_xform(rng):
     """Systematic part: every transform family x attribute configuration on 3- and 4-rank tensors."""
     attr_cfgs = []
@@ -422,6 +575,11 @@ def _sys_xform(rng):
     for style in ("tuple", "pair"):
         families.append((3, ("flatten-flatten", style, 1)))     # [M, [K, N]] then [[M, K, N]]
         families.append((3, ("flatten-flatten", style, 0)))     # [[M, K], N] then [[M, K, N]]
+    # a split below the top rank, then an absolute merge from above the two halves down to the lower half (the
+    # column sums of a tiled matrix): the rows' merged fibers have different, un-nested active ranges
+    for kind in SPLITS:
+        for (sd, md, lv) in ((1, 0, 2), (2, 1, 2), (2, 0, 3)):
+            families.append((3, ("split-merge", kind, sd, md, lv)))
     for fam_i, (depth, fam) in enumerate(families):
         for a_i, (explicit, default, fmts, mutable) in enumerate(attr_cfgs):
             yield fam_i * len(attr_cfgs) + a_i, depth, fam, explicit, default, fmts, mutable
@@ -454,6 +612,10 @@ def _sys_case(rng, depth, fam, explicit, default, fmts, mutable):
         p.pop("pre", None), p.pop("post", None)
         p["relative"] = rel
         steps = [[kind, p], ["flattenRanks", {"depth": d, "levels": 1, "style": "relative" if rel else "absolute"}]]
+    elif what == "split-merge":
+        _, kind, sd, md, lv = fam
+        p = _split_params(rng, kind, sd, ids)
+        steps = [[kind, p], ["mergeRanks", {"depth": md, "levels": lv, "style": "absolute"}]]
     else:
         steps = [["flattenRanks", {"depth": fam[2], "levels": 1, "style": fam[1]}],
                  ["flattenRanks", {"depth": 0, "levels": 1, "style": fam[1]}]]
@@ -542,7 +704,41 @@ def _join_case(rng):
             "shape": [e + rng.choice([0, 1, 3]) for e in ext] if rng.random() < 0.6 else None,
             "default": rng.choice([0, 8, own_default]), "via": rng.choice(["fromFiber", "fromFiber", "setRoot"]),
             "then": rng.choice([None, "setDefault", "setRankIds", "setShape"])}
+    if depth >= 2 and spec and rng.random() < 0.5:
+        # the fibers of one level were built separately and each declares its own extent (its last coordinate + 1
+        # or more), e.g. rows made from lists of different lengths: `decl` mirrors the tree, [own shape, children]
+        per_fiber = [False] + [rng.random() < 0.7 for _ in range(depth - 1)]
+        if any(per_fiber):
+            # guard (off) for known finding D3, see _GUARD_SOME_UNDECLARED
+            some_none = (not _GUARD_SOME_UNDECLARED) and rng.random() < 0.3
+            case["decl"] = _decl_tree(rng, spec, own_shape, per_fiber, some_none)
+            case["own_shape"] = ["per-fiber" if pf else s for pf, s in zip(per_fiber, own_shape)]
     return case
+
+
+def _decl_tree(rng, spec, own_shape, per_fiber, some_none, lvl=0):
+    kids = [_decl_tree(rng, p, own_shape, per_fiber, some_none, lvl + 1) for _, p in spec if isinstance(p, list)]
+    own = (spec[-1][0] + 1 + rng.choice([0, 0, 1, 3])) if per_fiber[lvl] else own_shape[lvl]
+    if per_fiber[lvl] and some_none and rng.random() < 0.4:
+        own = None
+    return [own, kids]
+
+
+def _fiber_from_decl(spec, default, decl):
+    """A free fibertree in which every fiber is constructed with its own declared shape (decl = [shape, children])."""
+    kids = iter(decl[1])
+    payloads = [_fiber_from_decl(p, default, next(kids)) if isinstance(p, list) else p for _, p in spec]
+    kw = {"shape": decl[0]} if decl[0] is not None else {}
+    return Fiber([c for c, _ in spec], payloads, default=default, **kw)
+
+
+def _decl_levels(decl, lvl=0, out=None):
+    """per level: the set of shapes the fibers of that level declare"""
+    out = {} if out is None else out
+    out.setdefault(lvl, set()).add(decl[0])
+    for k in decl[1]:
+        _decl_levels(k, lvl + 1, out)
+    return out
 
 
 def _rejoin_case(rng):
@@ -591,6 +787,10 @@ def _fiber_case(rng):
         ops += [["flattenRanks", {"depth": 0, "levels": 1, "style": s}] for s in ("tuple", "pair")]
         ops.append(["flatten-unflatten", {}])
         ops.append(["swapRanks", {}])
+    if depth == 2:
+        # the lower rank tiled, then all three ranks merged on the coordinate of the lowest one
+        for kind in SPLITS[:2]:
+            ops.append(["split-merge", dict(_split_params(rng, kind, 1, None, ext[1]), kind=kind)])
     case["op"] = rng.choice(ops)
     return case
 
@@ -605,6 +805,8 @@ def generate(rng, tier, shard, nshards, mon):
         empty = rng.random() < 0.03
         cfg = _tensor_cfg(rng, empty=empty, ctor="fromFiber" if empty else None)
         yield _xform_case(rng, cfg)
+    for _ in range(700 * scale // nshards):
+        yield _grown_case(rng)
     for _ in range(1200 * scale // nshards):
         yield _lazy_case(rng)
     for _ in range(800 * scale // nshards):
@@ -737,6 +939,11 @@ def _build_tensor(mon, cfg):
     elif ctor == "fromRandom":
         t = _call(mon, "Tensor.fromRandom", Tensor.fromRandom, rank_ids=list(ids), shape=list(cfg["shape"]),
                   density=list(cfg["density"]), seed=cfg["seed"], default=d)
+    elif ctor == "populated":
+        t = _call(mon, "Tensor", Tensor, rank_ids=list(ids), shape=list(cfg["shape"]) if cfg["shape"] else None,
+                  default=d)
+        if cfg.get("yaml"):
+            t = _call(mon, "Tensor.fromYAMLfile[empty]", _yaml_roundtrip, t)
     else:
         t = _call(mon, "Tensor.makePopulated", Tensor.makePopulated, list(ids), list(cfg["shape"]),
                   initial=cfg["initial"], default=d)
@@ -745,6 +952,23 @@ def _build_tensor(mon, cfg):
             t.setFormat(r, fm)
     t.setMutable(cfg["mutable"])
     return t
+
+
+def _yaml_roundtrip(t):
+    fd, path = tempfile.mkstemp(suffix=".yaml", prefix="c14-")
+    os.close(fd)
+    try:
+        t.dump(path)
+        return Tensor.fromYAMLfile(path)
+    finally:
+        os.unlink(path)
+
+
+def _insert_points(t, grow, default):
+    """The way a kernel fills an output: a reference to the (created) leaf, updated in place."""
+    for pt, v in grow:
+        ref = t.getPayloadRef(*pt)
+        ref += v - default
 
 
 def _opkey(op, p, st):
@@ -800,6 +1024,11 @@ def _check_tensor_fibers(mon, key, t, st, roles=None):
     """Every fiber answers with its rank's id; coordinates inside shape / active range."""
     root = t.getRoot()
     shapes = _call(mon, f"{key}:getShape", t.getShape)
+    if st.get("unknown0") and root.coords:
+        if not _GUARD_SHAPE0:
+            _check_containment(mon, "transform[shape-recorded-as-0]", root, shapes, False, estimated=True)
+        if _GUARD_SHAPE0:
+            shapes = None       # (guard for former defect D1: judge against the shape each fiber reports)
     ok = True
     for lvl, f in _walk(root):
         if lvl >= len(st["ids"]):
@@ -841,8 +1070,10 @@ def _run_xform(case, mon):
         t = _build_tensor(mon, cfg)
     except _Raised:
         return
-    st = st_new(cfg["ids"], cfg["shape"], cfg["default"], cfg["fmts"], cfg["mutable"])
-    key = f"Tensor.{cfg['ctor']}"
+    st = st_new(cfg["ids"], cfg["shape"], cfg["default"], cfg["fmts"], cfg["mutable"],
+                unknown0=bool(cfg.get("yaml")) and cfg["shape"] is None,
+                norecord=cfg["ctor"] == "populated" and cfg["shape"] is None)
+    key = f"Tensor.{cfg['ctor']}" + ("+fromYAMLfile" if cfg.get("yaml") else "")
     if cfg.get("ragged") and _nest_ragged(cfg["nest"]):
         key += "[ragged-nest]"
         mon.count("ragged_nests" if cfg.get("shape_given") else "ragged_nests_shape_calculated")
@@ -851,6 +1082,21 @@ def _run_xform(case, mon):
         good &= _check_tensor_fibers(mon, key, t, st)
     except _Raised:
         good = False
+    stale = set()
+    if good and cfg.get("grow"):
+        # content that arrives after construction; the filled tensor itself is not judged (SPEC assumptions), the
+        # tensors made from it are
+        try:
+            _call(mon, "getPayloadRef", _insert_points, t, cfg["grow"], cfg["default"])
+        except _Raised:
+            return
+        mon.count("points_inserted", len(cfg["grow"]))
+        mon.count("tensors_filled_after_construction")
+        if cfg["ctor"] == "populated":
+            mon.count("filled_from_empty_after_yaml" if cfg.get("yaml") else "filled_from_empty")
+        stale = set(cfg.get("beyond", ()))
+        if stale:
+            mon.count("grown_beyond_recorded_estimate")
     nleaves = _leaves(t.getRoot())
     done = 0
     for op, p in case["steps"]:
@@ -862,6 +1108,11 @@ def _run_xform(case, mon):
         if op in SPLITS:
             sd = _split_depth(st, p)
             roles = {sd: "upper", sd + 1: "partition"}
+        if op == "mergeRanks" and p["style"] == "absolute" and p["levels"] >= 2 \
+                and _split_pair(st, p["depth"] + p["levels"] - 1) is False:
+            mon.count("merge_absolute_from_above_split_halves")
+        if done == 0 and stale & _stale_sensitive(op, p, st):
+            key, roles = "transform[operand-grown-beyond-estimate]", None    # one mechanism whatever the transform
         before = (t.getRankIds(), t.getShape(authoritative=True), unbox(t.getDefault()), t.isMutable())
         raw0 = mon.counters["violations_raw"]
         try:
@@ -1103,10 +1354,17 @@ def _verify_members(mon, key, t, root, ids, shape, d, own_shape=None, own_d=None
 def _run_join(case, mon):
     own_d = case["own_default"]
     ids, shape, d = case["ids"], case["shape"], case["default"]
-    f = gen.fiber_from_spec(case["spec"], own_d, shape=case["own_shape"])
+    if case.get("decl"):
+        f = _fiber_from_decl(case["spec"], own_d, case["decl"])
+        if any(len(v) > 1 for v in _decl_levels(case["decl"]).values()):
+            mon.count("join_sibling_shapes_differ")
+    else:
+        f = gen.fiber_from_spec(case["spec"], own_d, shape=case["own_shape"])
     if case["own_rid"] is not None:
         f.getRankAttrs().setId(case["own_rid"])
     key = f"join[{case['via']}]"
+    if case.get("decl") and any(None in v and len(v) > 1 for v in _decl_levels(case["decl"]).values()):
+        key = "join[some-fibers-undeclared]"
     try:
         if case["via"] == "fromFiber":
             t = _call(mon, key, Tensor.fromFiber, rank_ids=list(ids), fiber=f, shape=list(shape) if shape else None, default=d)
@@ -1119,8 +1377,12 @@ def _run_join(case, mon):
         return
     differs = own_d != d or case["own_rid"] not in (None, ids[0])
 
+    some_undeclared = key == "join[some-fibers-undeclared]"
+
     def verify(key, ids, shape, d):
         nonlocal differs
+        if some_undeclared:
+            key = "join[some-fibers-undeclared]"      # one mechanism, whatever attribute change followed (known finding D3)
         differs |= _verify_members(mon, key, t, f, ids, shape, d, own_shape=case["own_shape"], own_d=own_d)
     try:
         if t.getRoot() is not f:
@@ -1215,6 +1477,13 @@ def _run_fiber(case, mon):
                 r = _call(mon, "Fiber.flattenRanks[tuple]", f.flattenRanks)
                 r = _call(mon, "Fiber.unflattenRanks", r.unflattenRanks)
                 _check_containment(mon, "Fiber.unflattenRanks", r, None, True, estimated=est)
+                _check_all_ranks(mon, r, est)
+            elif name == "split-merge":
+                r = _call(mon, f"Fiber.{p['kind']}", getattr(f, p["kind"]), p["arg"], depth=1)
+                k = "Fiber.mergeRanks[absolute,3+ranks]"
+                r = _call(mon, k, r.mergeRanks, levels=2, style="absolute")
+                mon.count("fiber_split_merge_absolute")
+                _check_containment(mon, k, r, None, True, estimated=est)
                 _check_all_ranks(mon, r, est)
             elif name == "swapRanks":
                 r = _call(mon, "Fiber.swapRanks", f.swapRanks)
